@@ -670,7 +670,7 @@ func (s *Server) cmdSET(msg *Message) (resp.Value, commandDetails, error) {
 			if err != nil {
 				return retwerr(errInvalidArgument(exval))
 			}
-			ex = time.Now().UnixNano() + int64(float64(time.Second)*x)
+			ex = deadlineAfter(time.Now(), x)
 		case "nx":
 			if xx {
 				return retwerr(errInvalidArgument(args[i]))
@@ -1078,8 +1078,7 @@ func (s *Server) cmdEXPIRE(msg *Message) (resp.Value, commandDetails, error) {
 	col, _ := s.cols.Get(key)
 	if col != nil {
 		// replace the expiration by getting the old object
-		ex := time.Now().Add(
-			time.Duration(float64(time.Second) * value)).UnixNano()
+		ex := deadlineAfter(time.Now(), value)
 		o := col.Get(id)
 		ok = o != nil
 		if ok {
@@ -1296,4 +1295,15 @@ func (s *Server) cmdFEXISTS(msg *Message) (resp.Value, error) {
 				time.Since(start).String() + "\"}"), nil
 	}
 	return resp.BoolValue(exists), nil
+}
+
+// deadlineAfter returns the unix nanosecond time that lies the given number of
+// seconds after now. A lifetime too long for the nanosecond clock ends at the
+// last representable instant instead of wrapping around into the past.
+func deadlineAfter(now time.Time, seconds float64) int64 {
+	ns := float64(time.Second) * seconds
+	if ns >= float64(math.MaxInt64-now.UnixNano()) {
+		return math.MaxInt64
+	}
+	return now.UnixNano() + int64(ns)
 }
